@@ -33,7 +33,7 @@ pub fn harvest(root: &N, lang: SupportLang, rng: &mut Rng) -> Material {
   for n in root.dfs() {
     if n.is_named() {
       let k = n.kind().to_string();
-      if !kinds.contains(&k) && !k.is_empty() && k != "ERROR" {
+      if !kinds.contains(&k) && !k.is_empty() {
         kinds.push(k);
       }
       let t = n.text();
